@@ -184,6 +184,11 @@ loop:
 		if nres < len(emitAt) {
 			emits.List = emits.List[:emitAt[nres]+1]
 		}
+		if site == "ControllableTask.Launch" {
+			// a panic inside the goroutine that LAUNCH started is asynchronous to every later step: it belongs to step 0
+			res = sx.L(sx.A("res"))
+			emits = sx.L(sx.A("emits"))
+		}
 		res.Add(sx.L(sx.A("crash"), sx.A(site)))
 		alive = "-"
 	}
@@ -401,11 +406,12 @@ func init() {
 		Nontrivial: nontrivial,
 		Rule: "one task per case in its own re-executed process: the real executor eventLoop + handlers + executable.NewTask with a fake Mesos " +
 			"agent and REAL children (sh scripts that exit 0 / 3, die of a signal, fork a helper, cannot be started; for controllable tasks a " +
-			"child that never opens its port and fake OCC devices that exit at DONE / need SIGTERM / ignore TERM+INT / fork). Schedules: every " +
-			"sequence of up to 2 (thorough 3) steps from {tick,start,stop,conf,trigger,kill,await} per kind x behaviour, plus random ones up to 7 " +
-			"(thorough 9) steps; observed: results of every step, UPDATE/MESSAGE calls in order, panic site, reproduced hang, survivors in the " +
+			"child that never opens its port and fake OCC devices that exit at DONE / need SIGTERM / ignore TERM+INT / fork / exit 3). Schedules: every " +
+			"sequence of up to 2 (thorough 3) steps from {tick,start,stop,conf,trigger,kill,await} per basic/hook behaviour and up to 1 (thorough 2) " +
+			"per controllable behaviour, plus random ones of 3..7 (thorough 3..9) steps; schedules that are slow by construction (escalation timers, " +
+			"the reproduced hang) are capped at 6 (thorough 80) per run; observed: results of every step, UPDATE/MESSAGE calls in order, panic site, reproduced hang, survivors in the " +
 			"process groups, signals received by the device. non-trivial = >=2 steps, a child was spawned and a stop/kill/await follows; distinct by input text",
-		Shrink:  shrinkCands,
+		Shrink: shrinkCands,
 		// wider search after a break: the quick stream under another seed (every case costs a process and >= 0.2 s)
 		Search:  func(r *rng.R) []fw.Case { return generate("quick", r) },
 		Workers: 8,
